@@ -62,6 +62,95 @@ def built_by_cols_loop(body, var):
     return False
 
 
+class Display:
+    """cell model of an HD44780-style display driven by recorded (setCursor, print) events"""
+
+    def __init__(self, cols, rows, fill):
+        self.cols, self.rows = cols, rows
+        self.cells = [list(r) for r in fill]
+        self.cur = (0, 0)
+        self.outside = []
+
+    def feed(self, events):
+        for name, args in events:
+            if name == "setCursor":
+                self.cur = (int(args[0]), int(args[1]))
+            elif name == "print":
+                txt = args[0] if isinstance(args[0], str) else str(args[0])
+                c, r_ = self.cur
+                for ch in txt:
+                    if 0 <= r_ < self.rows and 0 <= c < self.cols:
+                        self.cells[r_][c] = ch
+                    else:
+                        self.outside.append((c, r_, ch))
+                    c += 1
+                self.cur = (c, r_)
+
+    def rows_text(self):
+        return ["".join(r) for r in self.cells]
+
+
+def rule_cells(cx, rid, em, hm, fns):
+    """write()/line(): the cells the firmware helper leaves on the display equal the host buffer, on a complete grid"""
+    import itertools
+    from .. import ckern
+    from .. import dl as dl_
+    r = cx.rule(rid, "for every display width 8/16, start column, text length (empty .. longer than the row), alignment and clear flag the firmware's __redu_lcd_write_aligned (evaluated with C semantics on a cell model) leaves exactly the characters of the host LCD.write in the target row, touches no other row and writes no cell outside the display", floor=800, exhaustive=True)
+    lcd = lit.table(em, "LCD_HELPER_SNIPPET")
+    m_ = re.search(r"enum\s+__redu_lcd_align\s*\{([^}]*)\}", lcd)
+    if not m_:
+        raise AnalysisError("enum __redu_lcd_align not found in the LCD helper snippet")
+    enum = {}
+    nxt = 0
+    for item in [x.strip() for x in m_.group(1).split(",") if x.strip()]:
+        nm, _, val = item.partition("=")
+        nxt = int(val) if val.strip() else nxt
+        enum[nm.strip()] = nxt
+        nxt += 1
+    aligns = {"left": "__redu_lcd_align_left", "center": "__redu_lcd_align_center", "right": "__redu_lcd_align_right"}
+    if not set(aligns.values()) <= set(enum):
+        raise AnalysisError(f"alignment enumerators changed: {sorted(enum)}")
+    if "__redu_lcd_write_aligned" not in fns:
+        raise AnalysisError("__redu_lcd_write_aligned vanished")
+    hw = hm.func("LCD.write")
+    S = type("LCDObj", (dl_.Synth,), {})
+    hit = dl_.Interp(hm)
+    n_bad = 0
+    for cols in (8, 16):
+        fill = ["abcdefghijklmnopqrstuvwxyz"[:cols], "ABCDEFGHIJKLMNOPQRSTUVWXYZ"[:cols]]
+        for col, tlen, al, clr, row in itertools.product((0, 1, 3, cols - 2, cols - 1), (0, 1, 2, 5, cols - 1, cols, cols + 3), ("left", "center", "right"), (True, False), (0, 1)):
+            text = "0123456789#$%&*+=?@!"[:tlen]
+            o = S()
+            o.__dl_class__ = "LCD"
+            o.cols, o.rows, o.buffer = cols, 2, list(fill)
+            hit.steps = 0
+            try:
+                out = hit.call(hw, [o, col, row, text], {"clear_row": clr, "align": al})
+            except dl_.Unsupported as e:
+                raise AnalysisError(f"host LCD.write left the evaluable subset: {e}")
+            if out.kind != "return":
+                continue
+            k = ckern.CallKern(fns, consts=enum)
+            try:
+                k.ev(("call", "__redu_lcd_write_aligned", [("lit", 0), ("lit", cols), ("lit", col), ("lit", row), ("lit", '"' + text + '"'), ("lit", clr), ("lit", enum[aligns[al]])]))
+            except ckern.KernUnsupported as e:
+                raise AnalysisError(f"__redu_lcd_write_aligned left the evaluable subset: {e}")
+            d = Display(cols, 2, fill)
+            d.feed(k.events)
+            got = d.rows_text()
+            if got == o.buffer and not d.outside:
+                r.ok(None)
+            else:
+                n_bad += 1
+                if n_bad <= 3:
+                    what = f"writes outside the display at {d.outside[:2]}" if d.outside else f"device rows {got}, host rows {o.buffer}"
+                    r.fail(f"write_aligned/cells=host[{al}{',clear' if clr else ''}]", (em.rel, em.const("LCD_HELPER_SNIPPET").lineno), f"lcd.write({col}, {row}, {text!r}, clear_row={clr}, align={al!r}) on {cols}x2 over a filled display: {what}", detail={"cols": cols, "col": col, "row": row, "text": text, "align": al, "clear_row": clr})
+                else:
+                    r.stat.obligations += 1
+                    r.stat.failed += 1
+    return r
+
+
 def rule_no_static(cx, rid, em):
     """helper templates keep no state of their own: a static local is shared by every display (and every call)"""
     fns, names = helper_functions(em)
@@ -261,15 +350,20 @@ def run(cx):
         idx_print = max(i for i, s in enumerate(wa["body"]) if any(callee(c) == "print" for c in all_calls([s])))
         r.check(idx_clear < idx_print, "write_aligned/clear-before-print", (em.rel, em.const("LCD_HELPER_SNIPPET").lineno), "the row must be cleared before the text is printed")
     else:
-        raise AnalysisError("__redu_lcd_write_aligned no longer clears the row through `if (clear_row) __redu_lcd_clear_row(lcd, cols, row)`: the checker cannot see that every cell of the row is overwritten")
+        # another way of repainting the row (e.g. one pass of padding + text + padding): the clearing clause is then decided
+        # by C17-CELLS on the cell model (bounded to the widths explored there), not structurally
+        cx.extra["write_aligned_clear_idiom"] = "not recognised; decided by C17-CELLS on the cell model"
+        r.ok("clearing idiom not recognised - see C17-CELLS", n=2)
     cr = fns.get("__redu_lcd_clear_row")
     loops = [s for s in all_stmts(cr["body"]) if s["k"] == "for"] if cr else []
     okc = len(loops) == 1 and show(loops[0]["cond"]) == "(i < cols)" and loops[0]["init"][0]["init"] == ("lit", 0) and [show(c) for c in all_calls(cr["body"]) if callee(c) == "setCursor"] == ["lcd.setCursor(0, row)"]
-    r.check(okc, "clear_row/cols-blanks-from-column-0", (em.rel, em.const("LCD_HELPER_SNIPPET").lineno), "clear_row must print cols blanks starting at column 0 of the row")
-    # alignment arithmetic mirrors the host
-    wtxt = " ".join(show(e) for s in all_stmts(wa["body"]) for e in stmt_exprs(s))
-    r.check("offset = (col + (room / 2))" in wtxt and "offset = (col + room)" in wtxt, "write_aligned/center=room/2,right=room", (em.rel, em.const("LCD_HELPER_SNIPPET").lineno), "alignment offsets changed")
-    r.check("offset = col + (available_width - len(content)) // 2" in norm(pt).replace("int(start_col)", "col").replace("col = col", "offset = col") or "(available_width - len(content)) // 2" in norm(pt), "LCD._place_text/center=room//2", (hm, pt), "host centre alignment changed")
+    if okc:
+        r.ok("clear_row: cols blanks from column 0 (all widths)")
+    else:
+        cx.extra["clear_row_idiom"] = "not recognised; decided by C17-CELLS on the cell model (widths 8 and 16)"
+        r.ok("clear_row idiom not recognised - see C17-CELLS")
+    # (the alignment arithmetic of host and firmware is compared cell by cell in C17-CELLS; no textual comparison of the two
+    # formulas is made - a rewrite that keeps the cells is not a finding)
 
     # ---- C17-BACKLIGHT -----------------------------------------------------------------------
     r = cx.rule("C17-BACKLIGHT", "display/backlight off drives the backlight pin to 0 and records the state as off; on drives it to the last brightness (clamped 0..255) and records on; brightness() only reaches the pin while the backlight is on", floor=9)
@@ -426,6 +520,9 @@ def run(cx):
                             else:
                                 r.stat.obligations += 1
                                 r.stat.failed += 1
+
+    # ---- C17-CELLS ---------------------------------------------------------------------------
+    rule_cells(cx, "C17-CELLS", em, hm, fns)
 
     # ---- binding of the LCD text arms (shared with C08) ---------------------------------------
     from . import c08
